@@ -51,7 +51,8 @@ pub trait Datamodel {
         ensures
             *r == old(self).gview(),
             final(self).gview() == *final(r),
-            final(self).log() == old(self).log();
+            final(self).log() == old(self).log(),
+            final(self).sysvars() == old(self).sysvars();
 
     /// gives the <data> elements of a state their values (oracle): touches the data store only
     fn initializeDataModel(&mut self, fsm: &mut Fsm, state: StateId, set_data: bool)
@@ -67,22 +68,31 @@ pub trait Datamodel {
             final(self).log() == old(self).log(),
             final(self).gview() == old(self).gview();
 
+    /// the names bound as read-only system variables so far (ghost); every other method leaves it unspecified, only
+    /// the start-up sequence of interpret() is tracked through it
+    spec fn sysvars(&self) -> Set<Seq<char>>;
+
+    /// binds `name` read-only (RFsmExpressionDatamodel::initialize_read_only_arc is verified in unit eventvar)
     fn initialize_read_only(&mut self, name: &str, value: Data)
         ensures
             final(self).log() == old(self).log(),
-            final(self).gview() == old(self).gview();
+            final(self).gview() == old(self).gview(),
+            final(self).sysvars() == old(self).sysvars().insert(name@);
 
     /// registers In() etc.; takes `&mut Fsm` but only reads the states (InAction::new, verified in unit dm)
     fn add_functions(&mut self, fsm: &mut Fsm)
         ensures
             *final(fsm) == *old(fsm),
             final(self).log() == old(self).log(),
-            final(self).gview() == old(self).gview();
+            final(self).gview() == old(self).gview(),
+            final(self).sysvars() == old(self).sysvars();
 
+    /// publishes `_ioprocessors` (read-only, built from the registered processors)
     fn set_ioprocessors(&mut self)
         ensures
             final(self).log() == old(self).log(),
-            final(self).gview() == old(self).gview();
+            final(self).gview() == old(self).gview(),
+            final(self).sysvars() == old(self).sysvars().insert("_ioprocessors"@);
 
     /// evaluates <param> elements into name/value pairs (oracle); errors are raised as events
     fn evaluate_params(&mut self, params: &Option<Vec<Parameter>>, values: &mut Vec<ParamPair>)
